@@ -27,6 +27,7 @@ type evalEnv struct {
 	vars map[string]ev
 	phis map[*ssa.Phi]Value // loop invariants: phi overrides
 	qn   *int
+	inOld bool
 	point ssa.Instruction // program point (at-eval clauses): names resolve to the value in use here
 }
 
@@ -104,29 +105,11 @@ func (en *evalEnv) lookupIdent(name string) (ev, bool) {
 		}
 	}
 	e := en.e
-	if en.point != nil {
-		// the most recent reference to this name before the program point, searching back through
-		// the block and its unique predecessors
-		b := en.point.Block()
-		idx := len(b.Instrs)
-		for i, in := range b.Instrs {
-			if in == en.point {
-				idx = i
+	if en.inOld {
+		for _, p := range en.fn.Params {
+			if p.Name() == name {
+				return ev{e.val(en.fr, p), p.Type()}, true
 			}
-		}
-		for hops := 0; b != nil && hops < 6; hops++ {
-			for i := idx - 1; i >= 0; i-- {
-				if dr, ok := b.Instrs[i].(*ssa.DebugRef); ok && !dr.IsAddr {
-					if id, ok := dr.Expr.(*ast.Ident); ok && id.Name == name {
-						return ev{e.val(en.fr, dr.X), dr.X.Type()}, true
-					}
-				}
-			}
-			if len(b.Preds) != 1 {
-				break
-			}
-			b = b.Preds[0]
-			idx = len(b.Instrs)
 		}
 	}
 	// loop phi by source name
@@ -137,19 +120,64 @@ func (en *evalEnv) lookupIdent(name string) (ev, bool) {
 			}
 		}
 	}
-	for _, p := range en.fn.Params {
-		if p.Name() == name {
-			return ev{e.val(en.fr, p), p.Type()}, true
+	if en.point != nil {
+		// the most recent reference to this name before the program point, searching back through
+		// the block and its unique predecessors
+		b := en.point.Block()
+		idx := len(b.Instrs)
+		for i, in := range b.Instrs {
+			if in == en.point {
+				idx = i
+			}
 		}
-	}
-	for _, p := range en.fn.FreeVars {
-		if p.Name() == name {
-			// captured variable: pointer to cell
-			pt := p.Type().(*types.Pointer).Elem()
-			return ev{e.load(en.fr, en.st, e.val(en.fr, p), pt), pt}, true
+		pb := b
+		for hops := 0; b != nil && hops < 12; hops++ {
+			for i := idx - 1; i >= 0; i-- {
+				if dr, ok := b.Instrs[i].(*ssa.DebugRef); ok && !dr.IsAddr {
+					if id, ok := dr.Expr.(*ast.Ident); ok && id.Name == name {
+						if !en.hasValue(dr.X) {
+							continue // defined by an instruction that has not been executed at this point
+						}
+						// the variable may have been re-assigned on the way to the program point: a phi of
+						// this variable in a block between the reference and the point carries the current value
+						val := dr.X
+						for d := pb; d != nil && d != b; d = d.Idom() {
+							for _, in := range d.Instrs {
+								phi, isPhi := in.(*ssa.Phi)
+								if !isPhi {
+									break
+								}
+								if phi.Comment == name {
+									return ev{e.val(en.fr, phi), phi.Type()}, true
+								}
+							}
+						}
+						return ev{e.val(en.fr, val), val.Type()}, true
+					}
+				}
+			}
+			// continue in the immediate dominator: a reference there dominates the program point
+			b = b.Idom()
+			if b != nil {
+				idx = len(b.Instrs)
+			}
 		}
 	}
 	// a local with a unique SSA value (needs debug refs)
+	for f := en.fr; f != nil; f = f.parent {
+		for _, p := range f.fn.Params {
+			if p.Name() == name {
+				return ev{e.val(f, p), p.Type()}, true
+			}
+		}
+		for _, p := range f.fn.FreeVars {
+			if p.Name() == name {
+				// captured variable: pointer to cell
+				pt := p.Type().(*types.Pointer).Elem()
+				return ev{e.load(f, en.st, e.val(f, p), pt), pt}, true
+			}
+		}
+	}
 	if v := en.e.namedValue(en.fr, en.fn, name); v != nil {
 		if a, ok := v.(*ssa.Alloc); ok {
 			pt := a.Type().(*types.Pointer).Elem()
@@ -288,6 +316,7 @@ func (en *evalEnv) eval(x Expr) ev {
 		n := *en
 		n.st = en.old
 		n.phis = nil
+		n.inOld = true // old(e): parameters denote their entry values; locals keep their current value, the heap is the entry heap
 		return n.eval(x.X)
 	case *ETernary:
 		c := en.boolTerm(x.C)
@@ -340,6 +369,11 @@ func (en *evalEnv) eval(x Expr) ev {
 		return ev{en.readFieldPath(base, path), ft}
 	case *EIndex:
 		base := en.eval(x.X)
+		if base.t != nil {
+			if mt, ok := base.t.Underlying().(*types.Map); ok {
+				return ev{e.mapValue(en.st, base.v.(*Term), mt, en.keyTerm(x.I, mt.Key())), mt.Elem()}
+			}
+		}
 		i := en.intTerm(x.I)
 		if base.t == nil {
 			if bt, ok := base.v.(*Term); ok && strings.HasPrefix(bt.Sort, "(Array Int ") {
@@ -550,11 +584,37 @@ func (en *evalEnv) call(x *ECall) ev {
 		}
 		t := en.typeByName(tn)
 		return ev{Eq(App(SInt, "o-tag", a.v.(*Term)), IntLit(int64(e.tag(t)))), nil}
+	case "implements":
+		// implements(x, Iface): the dynamic type of x implements the named interface
+		a := arg(0)
+		t := en.typeByName(typeExprName(x.Args[1]))
+		it, ok := t.Underlying().(*types.Interface)
+		if !ok {
+			en.fail("implements(x, I): I is not an interface")
+		}
+		return ev{e.implPred(it, t, App(SInt, "o-tag", a.v.(*Term))), nil}
 	case "tag":
 		return ev{App(SInt, "o-tag", arg(0).v.(*Term)), nil}
 	case "asInt":
 		// payload of a boxed integer-like value
 		return ev{App(SInt, "o-int", arg(0).v.(*Term)), nil}
+	case "as":
+		// as(x, T): the payload of interface value x viewed as concrete type T
+		a := arg(0)
+		tn := typeExprName(x.Args[1])
+		if c, ok := x.Args[1].(*ECall); ok && c.Fun == "ptr" && len(c.Args) == 1 {
+			tn = "*" + typeExprName(c.Args[0])
+		}
+		t := en.typeByName(tn)
+		at := a.v.(*Term)
+		switch sortOf(t) {
+		case SSl:
+			return ev{App(SSl, "o-sl", at), t}
+		case SBool:
+			return ev{Eq(App(SInt, "o-int", at), IntLit(1)), t}
+		default:
+			return ev{App(SInt, "o-int", at), t}
+		}
 	case "asList":
 		a := arg(0)
 		lt := en.typeByName("slip.List")
@@ -674,6 +734,7 @@ func (e *Exec) atReturn(fr *Frame, st *State, res []Value, c *Contract) {
 	for i, cl := range c.Ensures {
 		en := e.newEnv(fr, st, e.entry)
 		en.point = e.curIn // names that are not parameters resolve to the value in use at this return
+		en.inOld = true    // parameter names denote the entry values (Gobra style); locals their value at the return
 		e.bindResults(en, fr.fn, res)
 		g := e.evalClause(en, cl)
 		e.oblige(st, "post", clauseName(cl, i), g, "")
@@ -756,6 +817,7 @@ func (e *Exec) contractLoopInvs(fr *Frame, h *ssa.BasicBlock, li *loopInfo, phis
 			add(clauseName(cl, i), false, func(v map[*ssa.Phi]Value, st *State) *Term {
 				en := e.newEnv(fr, st, e.entry)
 				en.phis = v
+				en.point = h.Instrs[len(h.Instrs)-1] // other names: the value in use at the loop header
 				return e.evalClause(en, cl)
 			})
 		}
@@ -819,4 +881,17 @@ func (en *evalEnv) pureMethodSort(iface, method string) string {
 		}
 	}
 	return ""
+}
+
+func (en *evalEnv) hasValue(v ssa.Value) bool {
+	switch v.(type) {
+	case *ssa.Const, *ssa.Parameter, *ssa.FreeVar, *ssa.Global, *ssa.Function:
+		return true
+	}
+	for f := en.fr; f != nil; f = f.parent {
+		if _, ok := f.vals[v]; ok {
+			return true
+		}
+	}
+	return false
 }
